@@ -19,10 +19,13 @@ Differences to the draft (all found by reviewing the draft against the RFC text)
   its own clause, and the fail-fast position is computed incrementally (tail of <= 3 octets), not
   by re-validating the whole message for every frame.
 * compressed messages (RFC 7692): one inflater per connection (context take-over is the default
-  of the negotiation used by the check), ``00 00 ff ff`` appended per message; a DEFLATE stream
-  that zlib rejects, or that ends the stream with BFINAL, is *grey* from the start of that
-  message (malformed DEFLATE is not in the property's violation list).  The draft called the
-  caller's ``inflate`` once per message without state and classified inflate errors as 1007.
+  of the negotiation used by the check), fed frame by frame, ``00 00 ff ff`` appended per message; a
+  DEFLATE stream that zlib rejects, that ends the stream with BFINAL or whose stripped tail is not an
+  empty stored block is *grey* from the start of that message (malformed DEFLATE is not in the
+  property's violation list).  Invalid UTF-8 in the inflated text: decidable at the earliest in the
+  frame in which zlib emits it, obligatory at the end of the message (an inflater may lag), events
+  due in between are optional.  The draft called the caller's ``inflate`` once per message without
+  state and classified inflate errors as 1007.
 * nothing is judged after a valid close frame (``grey_from`` = end of that frame); close codes
   1012-1014 make the close itself grey (either a normal reply or a protocol failure).
 * RSV1 on a *continuation* frame is reported before "continuation outside a message" only for
@@ -104,6 +107,8 @@ class Timeline:
         self.grey_from = None
         self.incomplete = False
         self.frames = 0
+        self.ncompressed = 0   # compressed messages delivered (> 1: the inflater context was carried over)
+        self.compressed_due = []   # due offsets of the compressed messages among ``events``
         self.saw = set()       # feature tags for coverage accounting
 
     # -- what is expected after the first k octets -----------------------------------------------
@@ -125,18 +130,22 @@ class Timeline:
 
 
 class Inflater:
-    """RFC 7692 7.2.2 with context take-over: one raw-DEFLATE decompressor per connection."""
+    """RFC 7692 7.2.2 with context take-over: one raw-DEFLATE decompressor per connection, fed frame
+    by frame (``feed``) so that the judge knows in WHICH frame inflated octets become available at the
+    earliest (zlib emits everything that is decodable from the input it was given)."""
+
+    TAIL = b"\x00\x00\xff\xff"
 
     def __init__(self):
         self.d = zlib.decompressobj(-15)
         self.broken = False
 
-    def message(self, data, complete=True):
+    def feed(self, data):
         """-> bytes, or None when the DEFLATE data is not something every inflater agrees on."""
         if self.broken:
             return None
         try:
-            out = self.d.decompress(data + (b"\x00\x00\xff\xff" if complete else b""))
+            out = self.d.decompress(data) if data else b""
         except zlib.error:
             self.broken = True
             return None
@@ -144,6 +153,21 @@ class Inflater:
             self.broken = True
             return None
         return out
+
+    def finish(self):
+        """end of message: the stripped ``00 00 ff ff`` is appended; for data produced as RFC 7692 7.2.1
+        prescribes it completes an EMPTY stored block - anything else (output, error, BFINAL) is grey."""
+        out = self.feed(self.TAIL)
+        if out is None or out:
+            self.broken = True
+            return None
+        return out
+
+    def message(self, data):
+        a = self.feed(data)
+        if a is None or self.finish() is None:
+            return None
+        return a
 
 
 def _utf8_tail(prev):
@@ -169,37 +193,52 @@ def _xor(data, key):
 
 
 def judge(role, stream, pmce=False):
-    """see ``_judge``; additionally: when the judged part of the stream ends (failure, truncation) inside a
-    compressed message whose DEFLATE data zlib already rejects, everything from the start of that
-    message is grey (the receiver may legitimately have reacted to the broken DEFLATE data first)."""
+    """``role`` is the RECEIVER ('server' receives what a client sent).  Default options of the
+    implementation under test are assumed: a server requires masked frames, a client fails on
+    masked frames, incoming text is UTF-8 validated, no size limits.
+
+    Compressed text messages (RFC 7692): the inflated octets are validated frame by frame.  The frame
+    in which zlib first emits an ill-formed sequence gives the EARLIEST offset at which the violation
+    is decidable; an inflater may lag behind its input, so the obligation to have failed exists at
+    the end of the MESSAGE at the latest (or at the next violation, whichever comes first - then
+    either class is acceptable).  Control frames interleaved in between are due inside the failure
+    window: the monitor treats events that fall due after ``failure.earliest`` as optional.  DEFLATE
+    data that zlib rejects, that ends with BFINAL or whose stripped tail is not an empty stored block
+    makes everything from the start of that message grey."""
     inflater = Inflater() if pmce else None
     tl = Timeline(len(stream))
-    cur = _judge(role, bytes(stream), pmce, tl, inflater)
-    if cur is not None and cur["compressed"] and not cur.get("inflated"):
-        out = inflater.message(b"".join(cur["chunks"]), complete=False)
-        if out is None:
-            tl.grey_from = cur["start"] if tl.grey_from is None else min(tl.grey_from, cur["start"])
-            tl.saw.add("grey-deflate")
+    _judge(role, bytes(stream), pmce, tl, inflater)
     return tl
 
 
+NEVER = 1 << 62     # 'latest' of a failure the stream does not oblige the receiver to have raised yet
+
+
 def _judge(role, data, pmce, tl, inflater):
-    """``role`` is the RECEIVER ('server' receives what a client sent).  Default options of the
-    implementation under test are assumed: a server requires masked frames, a client fails on
-    masked frames, incoming text is UTF-8 validated, no size limits."""
     n = len(data)
     i = 0
-    msg = None   # dict(op, compressed, chunks, start, tail) of the data message in progress
+    msg = None    # dict(op, compressed, chunks, start, tail, nframes) of the data message in progress
+    doom = None   # earliest offset of invalid UTF-8 seen in the inflated text of the message in progress
 
     def fail(kind, clause, earliest, latest, alt=()):
         assert CLAUSES[clause] == kind
-        tl.failure = Failure(kind, clause, earliest, latest, alt)
-        return msg
+        if doom is not None:
+            # the message in progress already inflated to invalid UTF-8: a receiver that noticed has failed
+            # with 'payload'; one whose inflater lags fails now, for the reason found here
+            alt = tuple(sorted(set((kind,) + tuple(alt)) - {"payload"}))
+            tl.failure = Failure("payload", "compressed-text-invalid-utf8", doom, latest, alt)
+            tl.saw.add("doomed+" + clause)
+        else:
+            tl.failure = Failure(kind, clause, earliest, latest, alt)
+
+    def incomplete():
+        tl.incomplete = True
+        if doom is not None:
+            tl.failure = Failure("payload", "compressed-text-invalid-utf8", doom, NEVER)
 
     while i < n:
         if n - i < 2:
-            tl.incomplete = True
-            return msg
+            return incomplete()
         b0, b1 = data[i], data[i + 1]
         fin, rsv, op = b0 >> 7, (b0 >> 4) & 7, b0 & 0x0F
         masked, l7 = b1 >> 7, b1 & 0x7F
@@ -239,8 +278,7 @@ def _judge(role, data, pmce, tl, inflater):
             return fail("protocol", clause, hdr2, hdr_end)
         # ---- extended payload length (5.2)
         if n < ext_end:
-            tl.incomplete = True
-            return msg
+            return incomplete()
         if l7 == 126:
             ln = struct.unpack("!H", data[hdr2:ext_end])[0]
             if ln < 126:
@@ -254,8 +292,7 @@ def _judge(role, data, pmce, tl, inflater):
         else:
             ln = l7
         if n < hdr_end:
-            tl.incomplete = True
-            return msg
+            return incomplete()
         key = data[ext_end:hdr_end] if masked else None
         frame_end = hdr_end + ln
         avail = min(ln, n - hdr_end)
@@ -265,6 +302,14 @@ def _judge(role, data, pmce, tl, inflater):
         tl.saw.add("len%d" % (7 if not ext else 8 * ext))
         # ---- control frames (5.5): interpreted when complete
         if op >= 8:
+            if op == OP_CLOSE and doom is not None:
+                # a close frame inside a message that already inflated to invalid UTF-8: a receiver that noticed
+                # has failed (1007), one whose inflater lags treats the close frame on its merits: nothing
+                # is asserted from here on except what was due before
+                tl.failure = Failure("payload", "compressed-text-invalid-utf8", doom, NEVER)
+                tl.grey_from = i
+                tl.saw.add("doomed+close")
+                return
             if op == OP_CLOSE and avail >= 2:
                 # a partially received close payload may already show an unacceptable code
                 code = struct.unpack("!H", payload[:2])[0]
@@ -283,8 +328,7 @@ def _judge(role, data, pmce, tl, inflater):
                     e = hdr_end + 2 + bad[2] + 1 if bad[2] is not None else frame_end
                     return fail("payload", "close-reason-not-utf8", e, frame_end, ("protocol",))
             if not complete:
-                tl.incomplete = True
-                return msg
+                return incomplete()
             tl.frames += 1
             if op == OP_PING:
                 tl.events.append((frame_end, ("ping", payload)))
@@ -303,49 +347,61 @@ def _judge(role, data, pmce, tl, inflater):
                 tl.saw.add("close")
                 if frame_end < n:
                     tl.saw.add("data-after-close")
-                return msg
+                return
             i = frame_end
             continue
         # ---- data frames (5.4, 5.6, 8.1)
         if op != OP_CONT:
             msg = {"op": op, "compressed": rsv == 4, "chunks": [], "start": i, "tail": b"", "nframes": 0}
-        msg["chunks"].append(payload)
         msg["nframes"] += 1
-        if msg["op"] == OP_TEXT and not msg["compressed"]:
-            probe = msg["tail"] + payload
+        text = payload
+        if msg["compressed"]:
+            text = inflater.feed(payload)
+            if text is not None and complete and fin:
+                text = None if inflater.finish() is None else text
+            if text is None:
+                tl.grey_from = msg["start"] if tl.grey_from is None else min(tl.grey_from, msg["start"])
+                tl.saw.add("grey-deflate")
+                if doom is not None:
+                    tl.failure = Failure("payload", "compressed-text-invalid-utf8", doom, NEVER)
+                return
+        msg["chunks"].append(text)
+        if msg["op"] == OP_TEXT and doom is None:
+            probe = msg["tail"] + text
             valid, ends, bad = utf8_ref.judge(probe)
             if bad is not None:
-                q = bad - len(msg["tail"])          # >= 0: the tail alone was a valid prefix
-                return fail("payload", "text-invalid-utf8", hdr_end + q + 1, frame_end)
-            msg["tail"] = _utf8_tail(probe) if not ends else b""
+                if not msg["compressed"]:
+                    q = bad - len(msg["tail"])          # >= 0: the tail alone was a valid prefix
+                    return fail("payload", "text-invalid-utf8", hdr_end + q + 1, frame_end)
+                doom = hdr_end + 1                      # at least one octet of this frame was needed
+                tl.saw.add("compressed-invalid-utf8-in-frame-%s" % ("first" if msg["nframes"] == 1 else "later"))
+            else:
+                msg["tail"] = _utf8_tail(probe) if not ends else b""
         if not complete:
-            tl.incomplete = True
-            return msg
+            return incomplete()
         tl.frames += 1
         if fin:
-            whole = b"".join(msg["chunks"])
-            if msg["compressed"]:
-                out = inflater.message(whole)
-                msg["inflated"] = True
-                if out is None:
-                    tl.grey_from = msg["start"] if tl.grey_from is None else tl.grey_from
-                    tl.saw.add("grey-deflate")
-                    return None
-                whole = out
-                tl.saw.add("compressed-message")
-                if msg["op"] == OP_TEXT:
-                    v = utf8_ref.judge(whole)
-                    if not (v[0] and v[1]):
-                        return fail("payload", "compressed-text-invalid-utf8", msg["start"] + 2, frame_end)
-            elif msg["op"] == OP_TEXT and msg["tail"]:
+            if doom is not None:
+                tl.failure = Failure("payload", "compressed-text-invalid-utf8", doom, frame_end)
+                return
+            if msg["op"] == OP_TEXT and msg["tail"]:
+                if msg["compressed"]:
+                    return fail("payload", "compressed-text-invalid-utf8", frame_end, frame_end)
                 return fail("payload", "text-truncated-utf8", frame_end, frame_end)
+            whole = b"".join(msg["chunks"])
             tl.events.append((frame_end, ("message", msg["op"] == OP_BIN, whole)))
             tl.saw.add("fragmented-message" if msg["nframes"] > 1 else "message")
+            if msg["compressed"]:
+                tl.saw.add("compressed-message")
+                tl.saw.add("compressed-%s" % ("text" if msg["op"] == OP_TEXT else "binary"))
+                tl.ncompressed += 1
+                tl.compressed_due.append(frame_end)
+                if tl.ncompressed > 1:
+                    tl.saw.add("context-takeover")
             msg = None
         i = frame_end
     if msg is not None:
-        tl.incomplete = True
-    return msg
+        incomplete()
 
 
 # -------------------------------------------------------------------------------------------------
@@ -389,8 +445,8 @@ class Deflater:
     """Sender side of RFC 7692 with context take-over (for generated streams): zlib raw deflate,
     Z_SYNC_FLUSH, trailing 00 00 ff ff removed."""
 
-    def __init__(self):
-        self.c = zlib.compressobj(6, zlib.DEFLATED, -15)
+    def __init__(self, level=6):
+        self.c = zlib.compressobj(level, zlib.DEFLATED, -15)
 
     def message(self, data):
         out = self.c.compress(data) + self.c.flush(zlib.Z_SYNC_FLUSH)
